@@ -143,7 +143,9 @@ PROPS["C18"]["fields"] = r"^accum\.|^(begin|end)\.rep|^cons\.cend\.rep"
 # parameters, removal); one scripted history per seed (201..209 consumers), slow (about 3 minutes)
 BULK = dict(name="bulk", quick=(2, 1), thorough=(6, 1))
 for _p in ("C10", "C11", "C20"):
-    PROPS[_p]["streams"] = PROPS[_p]["streams"] + [BULK]
+    PROPS[_p]["streams"] = PROPS[_p]["streams"] + [BULK if _p == "C10" else dict(BULK, quick=(1, 1))]
+# C19 also runs the infraction stream (consumers stopped in the block of a parameter request)
+PROPS["C19"]["streams"] = PROPS["C19"]["streams"] + [dict(name="infraction", quick=(3, 500), thorough=(12, 2500))]
 
 NOT_APPLICABLE = {
 }
